@@ -2142,6 +2142,48 @@ func (x *Exec) battery() {
 		}
 		x.emit(x.probe(0, flt, api))
 	}
+	x.staleProbes()
+}
+
+// staleProbes: queries naming a removed entity as relation target - preferably one whose id lives on under a new
+// generation - must be rejected or select nothing (C03), through a filter built now with the target fixed and,
+// ID-based, with the target passed per query.
+func (x *Exec) staleProbes() {
+	liveID := map[uint32]bool{}
+	for _, h := range x.ords {
+		if x.w.Alive(h) {
+			liveID[h.ID()] = true
+		}
+	}
+	recycled, dead := []int{}, []int{}
+	for i, h := range x.ords {
+		if !x.w.Alive(h) {
+			if liveID[h.ID()] {
+				recycled = append(recycled, i+1)
+			} else {
+				dead = append(dead, i+1)
+			}
+		}
+	}
+	cand := append(recycled, dead...)
+	if len(cand) > 2 {
+		cand = cand[:2]
+	}
+	api := "typed"
+	if x.Cfg.Path == "unsafe" {
+		api = "unsafe"
+	}
+	for _, c := range x.Cfg.Comps {
+		if !isRelName(c) {
+			continue
+		}
+		for _, o := range cand {
+			x.emit(x.probe(0, GenFlt{With: []string{c}, Without: []string{}, Ft: FlexMap[int]{c: o}, Qt: FlexMap[int]{}}, api))
+			if api == "unsafe" {
+				x.emit(x.probe(0, GenFlt{With: []string{c}, Without: []string{}, Ft: FlexMap[int]{}, Qt: FlexMap[int]{c: o}}, api))
+			}
+		}
+	}
 }
 
 // misuseOps enumerates calls that violate a documented precondition in the current state (C10):
